@@ -139,7 +139,7 @@ func genPlan(role string) func(rt *rapid.T) Plan {
 			case w < 88:
 				op = Op{K: opSleep, N: rapid.SampledFrom([]int{1, 10, 100, 1000, 10000, 100000, 1000000}).Draw(rt, "us")}
 			case w < 92:
-				op = Op{K: opPadOnly, S: rapid.IntRange(0, 15).Draw(rt, "s"), P: rapid.SampledFrom([]int{0, 1, 100, 255, 255, 255}).Draw(rt, "pad")}
+				op = Op{K: opPadOnly, S: rapid.IntRange(0, 15).Draw(rt, "s"), P: rapid.SampledFrom([]int{0, 1, 100, 255, 255, 255, 255, 255}).Draw(rt, "pad")}
 				if rapid.IntRange(0, 2).Draw(rt, "pad_burst") == 0 {
 					op.N = rapid.IntRange(1, 8).Draw(rt, "npad")
 				} else {
@@ -543,6 +543,17 @@ func (e *exec) check(where string) {
 		}
 		if rerr != nil && !(s.eosSent && got == len(s.sent)) {
 			e.badf("%s: stream %d: application read failed with %v after %d of %d sent bytes (eos sent=%v)", where, s.id, rerr, got, len(s.sent), s.eosSent)
+		}
+		// exact accounting: every flow-controlled byte the peer sent is either still unread by the
+		// application or has been given back, except for the batched remainder (< limit/4) grpc-go
+		// holds in pendingUpdate. So at quiescence window + unread payload >= limit - limit/4.
+		if rerr == nil && !s.eosSent {
+			w := e.led.OutStreamWindow(s.id)
+			unread := int64(len(s.sent) - got)
+			if w+unread < L-L/4 {
+				e.badf("%s: stream %d: window leak: the stream window the peer sees is %d with %d delivered bytes still unread by the application; %d + %d < limit - limit/4 = %d (limit %d; %d bytes of padding-only frames sent so far)", where, s.id, w, unread, w, unread, L-L/4, L, s.padOnly)
+			}
+			e.class("accounting_checked")
 		}
 		if !inCall || rerr != nil || s.eosSent {
 			continue
